@@ -1,7 +1,8 @@
 PROPERTY = "C13"
 LEVEL = "proof"
 LEAN_MODULES = ["CifModel.Props.C13"]
-REQUIRED = ["CifModel.C13_text_pure", "CifModel.C13_no_triple", "CifModel.C13_refusal_codes", "CifModel.C13_never_silently_alters"]
+REQUIRED = ["CifModel.C13_text_pure", "CifModel.C13_no_triple", "CifModel.C13_refusal_codes", "CifModel.C13_never_silently_alters",
+            "CifModel.C13_value_roundtrip"]
 GEN = ["WriterConsts", "ErrCodes"]
 FAMILIES = ["decode", "writeval11", "write11"]
 TRUSTED_BASE = [
@@ -21,7 +22,8 @@ ASSUMPTIONS = [
 PARTIAL = [
     "C13_refusal_codes_full / C13_pure_full (whole CIF): not proved; proved at the value level: C13_refusal_codes (codes and witnesses of "
     "write_char in CIF 1.1 mode, never CIF_INTERNAL_ERROR), C13_text_pure, C13_never_silently_alters (text fields: pure, decode back exactly)",
-    "C13_roundtrip through the lexer: needs Model/Lexer.lean of group gD",
+    "C13 round trip of whole documents: needs the integrated parser model (group gJ); the value level is proved against the CIF 1.1 lexer "
+    "model of group gD (C13_value_roundtrip)",
 ]
 LEVEL_TEXT = ("Proof (partial): in CIF 1.1 mode write_char fails only with CIF_DISALLOWED_CHAR (witness: a unit outside cif11_chars) or "
               "CIF_DISALLOWED_VALUE (witness: the text needs a text field and contains <LF>;), never triple-quotes, and a text field it writes "
